@@ -1346,6 +1346,54 @@ def system_fields(ctx, args, ci, dt):
     return Ref(Cell(cached))
 
 
+# ------------------------------------------------------------------------------ Range / VecDeque
+def range_into_iter(ctx, args, ci, dt):
+    return args[0]
+
+
+def range_next(ctx, args, ci, dt):
+    r = deref(args[0])
+    a, b = r.fields[0], r.fields[1]
+    lt = ctx.binop(None, 'Lt', a.v, b.v)
+    if ctx.branch(lt):
+        cur = a.v
+        a.v = ctx.binop(None, 'Add', a.v, Int(a.v.bits, a.v.signed, 1))
+        return some(cur)
+    return none()
+
+
+def vd_new(ctx, args, ci, dt):
+    return VecV()
+
+
+def vd_push_back(ctx, args, ci, dt):
+    deref(args[0]).elems.append(Cell(args[1]))
+    return UNIT
+
+
+def vd_push_front(ctx, args, ci, dt):
+    deref(args[0]).elems.insert(0, Cell(args[1]))
+    return UNIT
+
+
+def vd_pop_back(ctx, args, ci, dt):
+    v = deref(args[0])
+    if not v.elems:
+        return none()
+    return some(v.elems.pop().v)
+
+
+def vd_pop_front(ctx, args, ci, dt):
+    v = deref(args[0])
+    if not v.elems:
+        return none()
+    return some(v.elems.pop(0).v)
+
+
+def vd_iter(ctx, args, ci, dt):
+    return IterV([Ref(c) for c in deref(args[0]).elems], 'slice')
+
+
 def m_panic(ctx, args, ci, dt):
     msg = args[0].lit.decode() if args and isinstance(args[0], S) and args[0].lit is not None else 'panic'
     raise panic(msg)
@@ -1571,6 +1619,19 @@ def install(ctx):
     M['HashMap::drain'] = hm_drain
     M['<SYSTEM_FIELDS as Deref>::deref'] = system_fields
     M['<&String as PartialEq>::eq'] = str_eq
+    M['<Range as IntoIterator>::into_iter'] = range_into_iter
+    M['<Range as Iterator>::next'] = range_next
+    M['VecDeque::new'] = vd_new
+    M['VecDeque::len'] = vec_len
+    M['VecDeque::is_empty'] = vec_is_empty
+    M['VecDeque::push_back'] = vd_push_back
+    M['VecDeque::push_front'] = vd_push_front
+    M['VecDeque::pop_back'] = vd_pop_back
+    M['VecDeque::pop_front'] = vd_pop_front
+    M['VecDeque::iter'] = vd_iter
+    M['<VecDeque as Clone>::clone'] = clone_model
+    M['<&VecDeque as IntoIterator>::into_iter'] = it_into_iter_ref_vec
+    M['<VecDeque as IntoIterator>::into_iter'] = it_into_iter_vec
     M['panic'] = m_panic
     M['panicking::panic'] = m_panic
     M['panic_fmt'] = m_panic_fmt
